@@ -2,7 +2,7 @@ ID = "C17"
 PROPS_FILE = "props/C17.v"
 COQ_TARGETS = ["props/C17.vo", "judge/J17.vo", "model/Pack.vo"]
 JUDGE = ("judge.J17", "J17.judge")
-JUDGE_IMPORTS = ("From NSQV Require Import gen.AdminRoutes model.Admin model.AdminCfg.",)
+JUDGE_IMPORTS = ("From NSQV Require Import gen.AdminRoutes model.Admin model.AdminCfg model.AdminReconf.",)
 JUDGE_SCOPE = "N_scope"
 REPO_BINS = [("nsqadmin", "apps/nsqadmin", "")]
 RULE = ("requests to the REAL nsqadmin (package nsqadmin in-process: real listener for requests sent as hand-written HTTP/1.1 from several 127/8 "
@@ -17,7 +17,14 @@ RULE = ("requests to the REAL nsqadmin (package nsqadmin in-process: real listen
         "depends on (admin list, ACL header name, /config CIDR, nsqlookupd addresses, nsqd addresses) x {command line (repeated flag), --config file with the key of "
         "contrib/nsqadmin.cfg.example (array / comma-separated string), both with different values (the command line must win), default}, the other options on random paths, "
         "one launch with everything in the file; per launch every state-changing route x {absent/empty/non-admin, alice, bob or a look-alike} over real connections, /config GET/PUT "
-        "from loopback addresses inside and outside the CIDR in force, GET /config/<documented key>, read-only views; the case states the launch as written, not the configuration.  "
+        "from loopback addresses inside and outside the CIDR in force, GET /config/<documented key>, read-only views; the case states the launch as written, not the configuration; "
+        "(6) RUN-TIME RECONFIGURATION of the upstream addresses: a fresh in-process nsqadmin per scenario, start lists {one nsqd, two nsqds, two nsqds + one down, one nsqlookupd, two nsqlookupds} "
+        "x 19 histories of /config requests (PUT nsqlookupd_http_addresses: add one / several / one that is down to an nsqadmin started with --nsqd-http-address, replace, extend, reorder with "
+        "duplicates, remove ([] and null), refused from outside the CIDR before / after an accepted one, bodies that do not decode, empty bodies, the options that can not be set "
+        "(nsqd_http_addresses, admin_users, ...), log_level, GET) x CIDR {default, 10.1.2.0/24, 127.0.0.0/30, none}, each request from inside or outside over a real connection or with a synthetic "
+        "RemoteAddr and the list read back after it; then EVERY state-changing action (create topic, create channel, pause / unpause / empty x topic / channel, delete topic, delete channel, tombstone) "
+        "by an admin and two requests without an admin identity, against worlds whose nsqlookupds list producers inside and outside the static nsqd list; the case states the start lists and the "
+        "history, not the lists in force (thorough tier: random histories in addition).  "
         "Non-trivial = answered 403, caused a POST, swapped an option, went through the /config gate or was not answered; distinct = distinct terms.")
 TRUSTED = [
     "modelled, not verified: net/http request parsing (header canonicalisation and optional-white-space trimming are modelled from net/textproto), "
@@ -35,6 +42,8 @@ ASSUMPTIONS = [
     "configuration paths: only valid launches are generated (exactly one of the two address lists on its effective path, a CIDR that parses or is empty, no empty admin name: admin_users = \"\" "
     "would make go-options produce the list [\"\"]); a launch that is not a valid configuration promises nothing (the model says nsqadmin does not start, which is compared); `deprecated` struct "
     "tags (none today) are not modelled: a field that gets one makes the model refuse the table",
+    "run-time reconfiguration: the nsqlookupd list in force is observed by reading /config/nsqlookupd_http_addresses back after every request of a history, with a synthetic RemoteAddr inside the CIDR "
+    "(the reads are not part of the history); the body of a PUT is classified (decodes into a list of strings / does not / empty) by the driver with encoding/json, as for the other /config cases",
     "what /config holds after a PUT to the launched binary is read back over a connection from a loopback address inside the CIDR in force; when that CIDR holds no 127/8 address only GETs are sent",
 ]
 LEVEL_TEXT = ("Machine-checked proof (Coq 8.16.1). The nsqadmin route table, each handler's ordered event summary (admin guard recognised only in its exact "
@@ -49,6 +58,11 @@ LEVEL_TEXT = ("Machine-checked proof (Coq 8.16.1). The nsqadmin route table, eac
               "nsqadmin.Options, flag set of apps/nsqadmin and NewOptions defaults yields exactly the documented configuration (command line over file over default, under the flag names and the "
               "keys of contrib/nsqadmin.cfg.example), nsqadmin starts iff exactly one address list is given and the CIDR parses, and the guarded / allowed / CIDR theorems hold for the admin list, "
               "header name and CIDR AS THE OPERATOR WROTE THEM on any path; every documented key is the key of exactly one option of the documented shape and every `flag` tag names a defined flag. "
+              "Run-time reconfiguration is quantified over as well: for EVERY history of /config requests the nsqd list is the one of the start and the nsqlookupd list is the value "
+              "of the last PUT of nsqlookupd_http_addresses that decodes and comes from inside the CIDR (requests from outside change nothing and are answered 403 / 400), and after ANY history the actions look "
+              "their producers up through the nsqlookupds in force when there is one (through the static nsqd list only when there is none) and POST to exactly those nsqlookupds and producers; the source shape "
+              "of that choice (GetTopicProducers / GetProducers), the lists every handler hands to clusterinfo (the options in force at the time of the request, both, nsqlookupd first) and the options doConfig can "
+              "set are regenerated (gen/AdminModes.v) and compared. "
               "Tied to the code by the generated tables and by differential correspondence on the real nsqadmin (in-process and the real binary started from flags / config files).")
 LEVEL_NOTE = ("Trusted: Coq kernel + vm_compute (finite table checks); the gotables translator (go/ast; it recognises shapes and call order, it does not evaluate Go); "
               "hand-written handler step lists whose projection must equal the regenerated summaries; the correspondence is sampled, the theorems are not. "
